@@ -47,7 +47,14 @@ fn invariant(sm: &SourceMap, stage: &str) -> Result<Vec<(u32, u32)>, String> {
         }
         // the i-th iterated token is the same however the iterator is driven
         let raws: Vec<sourcemap::RawToken> = toks.iter().map(|t| t.get_raw_token()).collect();
-        super::common::iter_conformance(&format!("{stage}: tokens()"), || sm.tokens().map(|t| t.get_raw_token()), &raws)?;
+        super::common::iter_conformance(&format!("{stage}: tokens()"), || sm.tokens(), |t| t.get_raw_token(), &raws)?;
+        // the list iterators against the indexed accessors
+        let srcs: Vec<Option<String>> = (0..sm.get_source_count()).map(|i| sm.get_source(i).map(str::to_string)).collect();
+        super::common::iter_conformance(&format!("{stage}: sources()"), || sm.sources(), |s| Some(s.to_string()), &srcs)?;
+        let nms: Vec<Option<String>> = (0..sm.get_name_count()).map(|i| sm.get_name(i).map(str::to_string)).collect();
+        super::common::iter_conformance(&format!("{stage}: names()"), || sm.names(), |s| Some(s.to_string()), &nms)?;
+        let cts: Vec<Option<String>> = (0..sm.get_source_count()).map(|i| sm.get_source_contents(i).map(str::to_string)).collect();
+        super::common::iter_conformance(&format!("{stage}: source_contents()"), || sm.source_contents(), |s| s.map(str::to_string), &cts)?;
         Ok(pos)
     });
     match r {
